@@ -83,6 +83,12 @@ PROPS = {
         "trusted_base": ["bytes.Buffer / io.Writer plumbing is modelled as an append-only byte list with save/restore for buffering constructs", "the prefix property of the unbuffered variant (output only grows) is decided by the fault-injection suite, not yet by a theorem over the whole interpreter"],
         "assumptions": ["fault injection at every output position through a context-controlled zero divisor; writer failing at the first call"],
     },
+    "C15": {
+        "suites": [{"name": "c15-ws", "proj": ["whitespace", "class", "output", "driver"]},
+                   {"name": "c15-spaceless", "proj": ["whitespace", "class", "output", "driver"]}],
+        "trusted_base": ["Go's regexp engine (leftmost-first, lazy quantifiers, '.' not matching newline) is modelled by spacelessMatchAt/lazyTagEnds and tied by the differential suite and a third, declarative hand-stripping reference in the harness", "strings.TrimLeft/TrimRight are modelled for ASCII cutsets on bytes", "that the model matcher equals the declarative 'between two tags' characterisation is decided by the suite, not by a theorem"],
+        "assumptions": ["whitespace in literal text is drawn from space, tab, CR, LF (VT/FF additionally inside spaceless bodies)"],
+    },
     "C16": {
         "suites": [
             {"name": "lex", "proj": ["positions", "panic"]},
